@@ -201,7 +201,9 @@ def option_guard_worlds(body, du, max_keys=2):
         guards.setdefault(key, []).append((bid, some_t, none_t))
         KEY_TYPES[(body.name, key)] = ty
     keys = [k for k, v in guards.items() if k.startswith('arg') or len(v) >= 1]
-    keys = sorted(keys)[:max_keys + 4]
+    # one world per key and outcome (never combinations): no cap is needed, and a cap would drop the
+    # key a rule is looking for once a function has many Option locals
+    keys = sorted(keys)
     worlds = [('all-paths', set(), {})]
     for k in keys:
         for outcome in ('Some', 'None'):
